@@ -317,10 +317,16 @@ def coqc_file(path, rundir, extra_Q=()):
 
 # ----------------------------------------------------------------------------------------
 def load_known():
+    out = []
     p = os.path.join(VERIF, 'known_findings.json')
-    if not os.path.exists(p):
-        return []
-    return json.load(open(p)).get('findings', [])
+    if os.path.exists(p):
+        out.extend(json.load(open(p)).get('findings', []))
+    d = os.path.join(VERIF, 'known_findings.d')
+    if os.path.isdir(d):
+        for f in sorted(os.listdir(d)):
+            if f.endswith('.json'):
+                out.extend(json.load(open(os.path.join(d, f))).get('findings', []))
+    return out
 
 class Check:
     """One run of one property's check."""
